@@ -14,6 +14,13 @@ Bounded-exhaustive enumeration on the real ``EventSeries`` code:
   thresh   every data array (4,2) over {0,1,2}  x  method  x  quantile/value
            menu  x  threshold type: make_event_matrix (static and through the
            constructor) marks exactly x > threshold / x < threshold
+  scale    beyond the exhaustive bound: four structured event series (regular,
+           drifting regular, clustered, pseudo-random; 10-40 events) of 60,
+           150, 257, 300 samples (thorough also 200, 513)  x  timestamps
+           {indices, 1.9e6 + 6k, the same with dyadic jitter}  x  taumax {1, 3
+           sampling steps, inf}  x  lag {0, 1, 1.5 steps}: every pair through
+           the pairwise functions and the whole matrix through
+           event_series_analysis, same oracles and relations
 """
 import warnings
 
@@ -73,6 +80,206 @@ def _close(a, b, tol):
     return equal(a, b, **tol)
 
 
+def _pair_config(ES, x, y, xa, ya, ts, tsa, kind, taumax, lag, viol, ex,
+                 stats, sig):
+    """One configuration of one pair of series: ES and ECA (static and
+    instance path) against the counting rules plus the relations.
+    Returns the number of library evaluations."""
+    ev = 0
+    c = _cls(lag, taumax)
+    # ---------------- event synchronisation (static) ---------
+    want = ref.es_values(x, y, ts, taumax, lag)
+    kw = dict(taumax=_tm(taumax), lag=float(lag))
+    if kind == "idx":
+        st, got = _call(ES.event_synchronization, xa, ya, **kw)
+    else:
+        st, got = _call(ES.event_synchronization, xa, ya,
+                        ts1=tsa, ts2=tsa, **kw)
+    ev += 1
+    if want is None:
+        ex("ES undefined: a series has no interior event "
+           "(fewer than 3 events)")
+        sig.append(None)
+    elif st == "exc":
+        viol.append(V("EventSeries.event_synchronization:raises:"
+                      + c, got, got, want))
+    else:
+        got = (float(got[0]), float(got[1]))
+        sig.append(want)
+        stats["es_pairs_judged"] += 1
+        stats["es_nonzero"] += bool(want[0] or want[1])
+        if not _close(got, want, F64):
+            viol.append(V(
+                "EventSeries.event_synchronization:value:" + c,
+                "ts=%s taumax=%s lag=%s: differs from the counting"
+                " rule" % (kind, taumax, lag), got, want))
+        if not all(-1e-12 <= g <= 1 + 1e-12 for g in got):
+            viol.append(V(
+                "EventSeries.event_synchronization:range:" + c,
+                "ts=%s taumax=%s lag=%s: outside [0,1]" % (
+                    kind, taumax, lag), got, "in [0,1]"))
+        # exchange of the two series (the lag belongs to the
+        # second series, so it changes sign with the exchange)
+        kw2 = dict(taumax=_tm(taumax), lag=-float(lag))
+        st2, sw = _call(ES.event_synchronization, ya, xa,
+                        ts1=tsa, ts2=tsa, **kw2)
+        ev += 1
+        if st2 == "exc" or not _close(
+                (float(sw[1]), float(sw[0])), got, F64):
+            viol.append(V(
+                "EventSeries.event_synchronization:swap:" + c,
+                "ts=%s taumax=%s lag=%s: ES(y,x) is not the "
+                "exchanged ES(x,y)" % (kind, taumax, lag),
+                sw, (got[1], got[0])))
+        # common time shift
+        st3, sh = _call(ES.event_synchronization, xa, ya,
+                        ts1=tsa + SHIFT, ts2=tsa + SHIFT, **kw)
+        ev += 1
+        if st3 == "exc" or not _close(
+                (float(sh[0]), float(sh[1])), got, F64):
+            viol.append(V(
+                "EventSeries.event_synchronization:shift:" + c,
+                "ts=%s taumax=%s lag=%s: changes under a common "
+                "time shift" % (kind, taumax, lag), sh, got))
+        if kind == "idx":
+            # explicit index timestamps = implicit ones
+            st4, e2 = _call(ES.event_synchronization, xa, ya,
+                            ts1=tsa, ts2=tsa, **kw)
+            ev += 1
+            if st4 == "exc" or not _close(
+                    (float(e2[0]), float(e2[1])), got, F64):
+                viol.append(V(
+                    "EventSeries.event_synchronization:"
+                    "timestamps:" + c,
+                    "explicit timestamps 0..T-1 differ from the "
+                    "default", e2, got))
+        if taumax is None:
+            for a in SCALES:
+                st5, sc = _call(
+                    ES.event_synchronization, xa, ya,
+                    ts1=tsa * a, ts2=tsa * a, taumax=np.inf,
+                    lag=float(lag) * a)
+                ev += 1
+                if st5 == "exc" or not _close(
+                        (float(sc[0]), float(sc[1])), got, F64):
+                    viol.append(V(
+                        "EventSeries.event_synchronization:"
+                        "scale:" + c,
+                        "taumax=inf: changes when time is "
+                        "rescaled by %s" % a, sc, got))
+    # ---------------- event coincidence analysis -------------
+    if taumax is None:
+        ex("ECA with unbounded window (library demands a finite "
+           "window)")
+        return ev
+    want = ref.eca(x, y, ts, taumax, lag)
+    if want is None:
+        ex("ECA undefined: a series has no events")
+        return ev
+    if kind == "idx":
+        st, got = _call(ES.event_coincidence_analysis, xa, ya,
+                        taumax, lag=lag)
+    else:
+        st, got = _call(ES.event_coincidence_analysis, xa, ya,
+                        taumax, ts1=tsa, ts2=tsa, lag=lag)
+    ev += 1
+    names = ("precursorXY", "triggerXY", "precursorYX",
+             "triggerYX")
+    if st == "exc":
+        viol.append(V("EventSeries.event_coincidence_analysis:"
+                      "raises:" + c, got, got, want))
+        return ev
+    got = [float(g) for g in got]
+    for k in range(4):
+        if want[k] is None:
+            ex("ECA rate undefined: zero denominator (all events "
+               "excluded at the boundary)")
+            continue
+        w = float(want[k])
+        stats["eca_rates_judged"] += 1
+        stats["eca_rates_nonzero"] += bool(w)
+        if not _close(got[k], w, F32):
+            viol.append(V(
+                "EventSeries.event_coincidence_analysis:value:"
+                + c, "%s ts=%s taumax=%s lag=%s" % (
+                    names[k], kind, taumax, lag), got[k], w))
+        if not -1e-6 <= got[k] <= 1 + 1e-6:
+            viol.append(V(
+                "EventSeries.event_coincidence_analysis:range:"
+                + c, names[k], got[k], "in [0,1]"))
+    sig.append(tuple(want))
+    # exchange (same lag: the lag separates cause and effect)
+    st2, sw = _call(ES.event_coincidence_analysis, ya, xa,
+                    taumax, ts1=tsa, ts2=tsa, lag=lag)
+    ev += 1
+    if st2 == "exc":
+        viol.append(V("EventSeries.event_coincidence_analysis:"
+                      "swap:" + c, sw, sw, got))
+    else:
+        sw = [float(g) for g in sw]
+        sw = [sw[2], sw[3], sw[0], sw[1]]
+        for k in range(4):
+            if want[k] is not None and not _close(
+                    sw[k], got[k], F32):
+                viol.append(V(
+                    "EventSeries.event_coincidence_analysis:"
+                    "swap:" + c, names[k], sw, got))
+                break
+    st3, sh = _call(ES.event_coincidence_analysis, xa, ya,
+                    taumax, ts1=tsa + SHIFT, ts2=tsa + SHIFT,
+                    lag=lag)
+    ev += 1
+    if st3 == "exc":
+        viol.append(V("EventSeries.event_coincidence_analysis:"
+                      "shift:" + c, sh, sh, got))
+    else:
+        sh = [float(g) for g in sh]
+        for k in range(4):
+            if want[k] is not None and not _close(
+                    sh[k], got[k], F32):
+                viol.append(V(
+                    "EventSeries.event_coincidence_analysis:"
+                    "shift:" + c, names[k], sh, got))
+                break
+    # instance path, the three window types (2-column matrix)
+    mat = np.column_stack([xa, ya])
+    st6, obj = _call(ES, mat, timestamps=(
+        None if kind == "idx" else tsa), taumax=taumax, lag=lag)
+    if st6 == "exc":
+        ex("constructor rejects matrices that do not contain "
+           "both 0 and 1")
+        return ev
+    for w in WINDOWS:
+        wantw = ref.eca_window(x, y, ts, taumax, lag, w)
+        st7, G = _call(obj.event_series_analysis, method="ECA",
+                       symmetrization="directed", window_type=w)
+        ev += 1
+        if st7 == "exc":
+            viol.append(V(
+                "EventSeries.event_series_analysis:raises:ECA-"
+                + w, G, G, wantw))
+            continue
+        for (i, j), wv in (((0, 1), wantw[0]),
+                           ((1, 0), wantw[1])):
+            if wv is None:
+                ex("ECA rate undefined: zero denominator (all "
+                   "events excluded at the boundary)")
+                continue
+            g = float(G[i][j])
+            stats["eca_window_rates_judged"] += 1
+            if not _close(g, float(wv), F32):
+                viol.append(V(
+                    "EventSeries.event_series_analysis:value:"
+                    "ECA-%s,%s" % (w, c),
+                    "entry %s ts=%s taumax=%s lag=%s" % (
+                        (i, j), kind, taumax, lag), g, float(wv)))
+            if not -1e-6 <= g <= 1 + 1e-6:
+                viol.append(V(
+                    "EventSeries.event_series_analysis:range:"
+                    "ECA-" + w, "", g, "in [0,1]"))
+    return ev
+
+
 def fam_pairs(case):
     T, xb, yb = case
     ES = _ES()
@@ -91,201 +298,101 @@ def fam_pairs(case):
         tsa = np.array(ts, dtype=float)
         for taumax in TAUMAX:
             for lag in LAGS:
-                c = _cls(lag, taumax)
-                # ---------------- event synchronisation (static) ---------
-                want = ref.es_values(x, y, ts, taumax, lag)
-                kw = dict(taumax=_tm(taumax), lag=float(lag))
-                if kind == "idx":
-                    st, got = _call(ES.event_synchronization, xa, ya, **kw)
-                else:
-                    st, got = _call(ES.event_synchronization, xa, ya,
-                                    ts1=tsa, ts2=tsa, **kw)
-                ev += 1
-                if want is None:
-                    ex("ES undefined: a series has no interior event "
-                       "(fewer than 3 events)")
-                    sig.append(None)
-                elif st == "exc":
-                    viol.append(V("EventSeries.event_synchronization:raises:"
-                                  + c, got, got, want))
-                else:
-                    got = (float(got[0]), float(got[1]))
-                    sig.append(want)
-                    stats["es_pairs_judged"] += 1
-                    stats["es_nonzero"] += bool(want[0] or want[1])
-                    if not _close(got, want, F64):
-                        viol.append(V(
-                            "EventSeries.event_synchronization:value:" + c,
-                            "ts=%s taumax=%s lag=%s: differs from the counting"
-                            " rule" % (kind, taumax, lag), got, want))
-                    if not all(-1e-12 <= g <= 1 + 1e-12 for g in got):
-                        viol.append(V(
-                            "EventSeries.event_synchronization:range:" + c,
-                            "ts=%s taumax=%s lag=%s: outside [0,1]" % (
-                                kind, taumax, lag), got, "in [0,1]"))
-                    # exchange of the two series (the lag belongs to the
-                    # second series, so it changes sign with the exchange)
-                    kw2 = dict(taumax=_tm(taumax), lag=-float(lag))
-                    st2, sw = _call(ES.event_synchronization, ya, xa,
-                                    ts1=tsa, ts2=tsa, **kw2)
-                    ev += 1
-                    if st2 == "exc" or not _close(
-                            (float(sw[1]), float(sw[0])), got, F64):
-                        viol.append(V(
-                            "EventSeries.event_synchronization:swap:" + c,
-                            "ts=%s taumax=%s lag=%s: ES(y,x) is not the "
-                            "exchanged ES(x,y)" % (kind, taumax, lag),
-                            sw, (got[1], got[0])))
-                    # common time shift
-                    st3, sh = _call(ES.event_synchronization, xa, ya,
-                                    ts1=tsa + SHIFT, ts2=tsa + SHIFT, **kw)
-                    ev += 1
-                    if st3 == "exc" or not _close(
-                            (float(sh[0]), float(sh[1])), got, F64):
-                        viol.append(V(
-                            "EventSeries.event_synchronization:shift:" + c,
-                            "ts=%s taumax=%s lag=%s: changes under a common "
-                            "time shift" % (kind, taumax, lag), sh, got))
-                    if kind == "idx":
-                        # explicit index timestamps = implicit ones
-                        st4, e2 = _call(ES.event_synchronization, xa, ya,
-                                        ts1=tsa, ts2=tsa, **kw)
-                        ev += 1
-                        if st4 == "exc" or not _close(
-                                (float(e2[0]), float(e2[1])), got, F64):
-                            viol.append(V(
-                                "EventSeries.event_synchronization:"
-                                "timestamps:" + c,
-                                "explicit timestamps 0..T-1 differ from the "
-                                "default", e2, got))
-                    if taumax is None:
-                        for a in SCALES:
-                            st5, sc = _call(
-                                ES.event_synchronization, xa, ya,
-                                ts1=tsa * a, ts2=tsa * a, taumax=np.inf,
-                                lag=float(lag) * a)
-                            ev += 1
-                            if st5 == "exc" or not _close(
-                                    (float(sc[0]), float(sc[1])), got, F64):
-                                viol.append(V(
-                                    "EventSeries.event_synchronization:"
-                                    "scale:" + c,
-                                    "taumax=inf: changes when time is "
-                                    "rescaled by %s" % a, sc, got))
-                # ---------------- event coincidence analysis -------------
-                if taumax is None:
-                    ex("ECA with unbounded window (library demands a finite "
-                       "window)")
-                    continue
-                want = ref.eca(x, y, ts, taumax, lag)
-                if want is None:
-                    ex("ECA undefined: a series has no events")
-                    continue
-                if kind == "idx":
-                    st, got = _call(ES.event_coincidence_analysis, xa, ya,
-                                    taumax, lag=lag)
-                else:
-                    st, got = _call(ES.event_coincidence_analysis, xa, ya,
-                                    taumax, ts1=tsa, ts2=tsa, lag=lag)
-                ev += 1
-                names = ("precursorXY", "triggerXY", "precursorYX",
-                         "triggerYX")
-                if st == "exc":
-                    viol.append(V("EventSeries.event_coincidence_analysis:"
-                                  "raises:" + c, got, got, want))
-                    continue
-                got = [float(g) for g in got]
-                for k in range(4):
-                    if want[k] is None:
-                        ex("ECA rate undefined: zero denominator (all events "
-                           "excluded at the boundary)")
-                        continue
-                    w = float(want[k])
-                    stats["eca_rates_judged"] += 1
-                    stats["eca_rates_nonzero"] += bool(w)
-                    if not _close(got[k], w, F32):
-                        viol.append(V(
-                            "EventSeries.event_coincidence_analysis:value:"
-                            + c, "%s ts=%s taumax=%s lag=%s" % (
-                                names[k], kind, taumax, lag), got[k], w))
-                    if not -1e-6 <= got[k] <= 1 + 1e-6:
-                        viol.append(V(
-                            "EventSeries.event_coincidence_analysis:range:"
-                            + c, names[k], got[k], "in [0,1]"))
-                sig.append(tuple(want))
-                # exchange (same lag: the lag separates cause and effect)
-                st2, sw = _call(ES.event_coincidence_analysis, ya, xa,
-                                taumax, ts1=tsa, ts2=tsa, lag=lag)
-                ev += 1
-                if st2 == "exc":
-                    viol.append(V("EventSeries.event_coincidence_analysis:"
-                                  "swap:" + c, sw, sw, got))
-                else:
-                    sw = [float(g) for g in sw]
-                    sw = [sw[2], sw[3], sw[0], sw[1]]
-                    for k in range(4):
-                        if want[k] is not None and not _close(
-                                sw[k], got[k], F32):
-                            viol.append(V(
-                                "EventSeries.event_coincidence_analysis:"
-                                "swap:" + c, names[k], sw, got))
-                            break
-                st3, sh = _call(ES.event_coincidence_analysis, xa, ya,
-                                taumax, ts1=tsa + SHIFT, ts2=tsa + SHIFT,
-                                lag=lag)
-                ev += 1
-                if st3 == "exc":
-                    viol.append(V("EventSeries.event_coincidence_analysis:"
-                                  "shift:" + c, sh, sh, got))
-                else:
-                    sh = [float(g) for g in sh]
-                    for k in range(4):
-                        if want[k] is not None and not _close(
-                                sh[k], got[k], F32):
-                            viol.append(V(
-                                "EventSeries.event_coincidence_analysis:"
-                                "shift:" + c, names[k], sh, got))
-                            break
-                # instance path, the three window types (2-column matrix)
-                mat = np.column_stack([xa, ya])
-                st6, obj = _call(ES, mat, timestamps=(
-                    None if kind == "idx" else tsa), taumax=taumax, lag=lag)
-                if st6 == "exc":
-                    ex("constructor rejects matrices that do not contain "
-                       "both 0 and 1")
-                    continue
-                for w in WINDOWS:
-                    wantw = ref.eca_window(x, y, ts, taumax, lag, w)
-                    st7, G = _call(obj.event_series_analysis, method="ECA",
-                                   symmetrization="directed", window_type=w)
-                    ev += 1
-                    if st7 == "exc":
-                        viol.append(V(
-                            "EventSeries.event_series_analysis:raises:ECA-"
-                            + w, G, G, wantw))
-                        continue
-                    for (i, j), wv in (((0, 1), wantw[0]),
-                                       ((1, 0), wantw[1])):
-                        if wv is None:
-                            ex("ECA rate undefined: zero denominator (all "
-                               "events excluded at the boundary)")
-                            continue
-                        g = float(G[i][j])
-                        stats["eca_window_rates_judged"] += 1
-                        if not _close(g, float(wv), F32):
-                            viol.append(V(
-                                "EventSeries.event_series_analysis:value:"
-                                "ECA-%s,%s" % (w, c),
-                                "entry %s ts=%s taumax=%s lag=%s" % (
-                                    (i, j), kind, taumax, lag), g, float(wv)))
-                        if not -1e-6 <= g <= 1 + 1e-6:
-                            viol.append(V(
-                                "EventSeries.event_series_analysis:range:"
-                                "ECA-" + w, "", g, "in [0,1]"))
+                ev += _pair_config(ES, x, y, xa, ya, ts, tsa, kind, taumax,
+                                   lag, viol, ex, stats, sig)
     nx, ny = sum(x), sum(y)
     return {"viol": viol, "evals": ev, "excluded": excl, "stats": stats,
             "trivial": nx == 0 or ny == 0,
             "sig": str(sig)}
+
+
+def _matrix_config(ES, mat, cols, ts, kind, taumax, lag, viol, ex, nj, sig):
+    """One configuration of one event matrix: event_series_analysis under
+    every symmetrisation against the pairwise values."""
+    N = mat.shape[1]
+    ev = 0
+    tsa = np.array(ts, dtype=float)
+    st, obj = _call(ES, mat.copy(), timestamps=(
+        None if kind == "idx" else tsa), taumax=_tm(taumax), lag=lag)
+    if st == "exc":
+        ex("constructor rejects matrices that do not contain both 0 "
+           "and 1")
+        return ev
+    # ES: entries = pairwise values of the static method
+    D = [[0.0] * N for _ in range(N)]
+    for i in range(N):
+        for j in range(i + 1, N):
+            a, b = ES.event_synchronization(
+                mat[:, i], mat[:, j], ts1=tsa, ts2=tsa,
+                taumax=_tm(taumax), lag=float(lag))
+            D[i][j], D[j][i] = float(a), float(b)
+    for sym in SYM_ES:
+        want = ref.symmetrise(D, sym)
+        st, G = _call(obj.event_series_analysis, method="ES",
+                      symmetrization=sym)
+        ev += 1
+        if st == "exc":
+            viol.append(V("EventSeries.event_series_analysis:raises:ES-"
+                          + sym, G, G, want))
+        elif not _close(np.asarray(G, dtype=float), np.array(want), F64):
+            viol.append(V(
+                "EventSeries.event_series_analysis:value:ES-" + sym,
+                "ts=%s taumax=%s lag=%s: matrix is not the pairwise "
+                "values under the symmetrisation" % (kind, taumax, lag),
+                G, want))
+    sig.append(str(D))
+    nj[1] += sum(1 for r in D for v in r if v == v and v != 0)
+    if taumax is None:
+        st, G = _call(obj.event_series_analysis, method="ECA")
+        ex("ECA with unbounded window (library demands a finite "
+           "window)")
+        return ev
+    if any(sum(c) == 0 for c in cols):
+        ex("ECA undefined: a series has no events", len(WINDOWS))
+        return ev
+    for w in WINDOWS:
+        E = [[0.0] * N for _ in range(N)]
+        for i in range(N):
+            for j in range(i + 1, N):
+                r = ref.eca_window(cols[i], cols[j], ts, taumax, lag, w)
+                E[i][j], E[j][i] = r
+        for sym in SYM_ECA:
+            st, G = _call(obj.event_series_analysis, method="ECA",
+                          symmetrization=sym, window_type=w)
+            ev += 1
+            if st == "exc":
+                viol.append(V(
+                    "EventSeries.event_series_analysis:raises:ECA-%s-%s"
+                    % (w, sym), G, G, None))
+                continue
+            G = np.asarray(G, dtype=float)
+            bad = None
+            for i in range(N):
+                for j in range(N):
+                    if i == j:
+                        if G[i][j] != 0:
+                            bad = (i, j, G[i][j], 0.0)
+                        continue
+                    a, b = E[i][j], E[j][i]
+                    if a is None or (sym != "directed" and b is None):
+                        ex("ECA rate undefined: zero denominator (all "
+                           "events excluded at the boundary)")
+                        continue
+                    a = float(a)
+                    b = float(b) if b is not None else 0.0
+                    wv = ref.symmetrise([[0.0, a], [b, 0.0]], sym)[0][1]
+                    nj[0] += 1
+                    if not _close(float(G[i][j]), wv, F32):
+                        bad = bad or (i, j, float(G[i][j]), wv)
+            if bad:
+                viol.append(V(
+                    "EventSeries.event_series_analysis:value:ECA-%s-%s"
+                    % (w, sym),
+                    "ts=%s taumax=%s lag=%s entry (%d,%d)" % (
+                        kind, taumax, lag, bad[0], bad[1]),
+                    bad[2], bad[3]))
+        sig.append(str(E))
+    return ev
 
 
 def fam_matrix(case):
@@ -302,88 +409,8 @@ def fam_matrix(case):
         excl[reason] = excl.get(reason, 0) + n
 
     for (kind, taumax, lag) in configs:
-        ts = _ts(kind, T)
-        tsa = np.array(ts, dtype=float)
-        st, obj = _call(ES, mat.copy(), timestamps=(
-            None if kind == "idx" else tsa), taumax=_tm(taumax), lag=lag)
-        if st == "exc":
-            ex("constructor rejects matrices that do not contain both 0 "
-               "and 1")
-            continue
-        # ES: entries = pairwise values of the static method
-        D = [[0.0] * N for _ in range(N)]
-        for i in range(N):
-            for j in range(i + 1, N):
-                a, b = ES.event_synchronization(
-                    mat[:, i], mat[:, j], ts1=tsa, ts2=tsa,
-                    taumax=_tm(taumax), lag=float(lag))
-                D[i][j], D[j][i] = float(a), float(b)
-        for sym in SYM_ES:
-            want = ref.symmetrise(D, sym)
-            st, G = _call(obj.event_series_analysis, method="ES",
-                          symmetrization=sym)
-            ev += 1
-            if st == "exc":
-                viol.append(V("EventSeries.event_series_analysis:raises:ES-"
-                              + sym, G, G, want))
-            elif not _close(np.asarray(G, dtype=float), np.array(want), F64):
-                viol.append(V(
-                    "EventSeries.event_series_analysis:value:ES-" + sym,
-                    "ts=%s taumax=%s lag=%s: matrix is not the pairwise "
-                    "values under the symmetrisation" % (kind, taumax, lag),
-                    G, want))
-        sig.append(str(D))
-        nj[1] += sum(1 for r in D for v in r if v == v and v != 0)
-        if taumax is None:
-            st, G = _call(obj.event_series_analysis, method="ECA")
-            ex("ECA with unbounded window (library demands a finite "
-               "window)")
-            continue
-        if any(sum(c) == 0 for c in cols):
-            ex("ECA undefined: a series has no events", len(WINDOWS))
-            continue
-        for w in WINDOWS:
-            E = [[0.0] * N for _ in range(N)]
-            for i in range(N):
-                for j in range(i + 1, N):
-                    r = ref.eca_window(cols[i], cols[j], ts, taumax, lag, w)
-                    E[i][j], E[j][i] = r
-            for sym in SYM_ECA:
-                st, G = _call(obj.event_series_analysis, method="ECA",
-                              symmetrization=sym, window_type=w)
-                ev += 1
-                if st == "exc":
-                    viol.append(V(
-                        "EventSeries.event_series_analysis:raises:ECA-%s-%s"
-                        % (w, sym), G, G, None))
-                    continue
-                G = np.asarray(G, dtype=float)
-                bad = None
-                for i in range(N):
-                    for j in range(N):
-                        if i == j:
-                            if G[i][j] != 0:
-                                bad = (i, j, G[i][j], 0.0)
-                            continue
-                        a, b = E[i][j], E[j][i]
-                        if a is None or (sym != "directed" and b is None):
-                            ex("ECA rate undefined: zero denominator (all "
-                               "events excluded at the boundary)")
-                            continue
-                        a = float(a)
-                        b = float(b) if b is not None else 0.0
-                        wv = ref.symmetrise([[0.0, a], [b, 0.0]], sym)[0][1]
-                        nj[0] += 1
-                        if not _close(float(G[i][j]), wv, F32):
-                            bad = bad or (i, j, float(G[i][j]), wv)
-                if bad:
-                    viol.append(V(
-                        "EventSeries.event_series_analysis:value:ECA-%s-%s"
-                        % (w, sym),
-                        "ts=%s taumax=%s lag=%s entry (%d,%d)" % (
-                            kind, taumax, lag, bad[0], bad[1]),
-                        bad[2], bad[3]))
-            sig.append(str(E))
+        ev += _matrix_config(ES, mat, cols, _ts(kind, T), kind, taumax, lag,
+                             viol, ex, nj, sig)
     nev = [sum(c) for c in cols]
     return {"viol": viol, "evals": ev, "excluded": excl,
             "stats": {"matrix_eca_entries_judged": nj[0],
@@ -469,7 +496,89 @@ def fam_thresh(case):
             "sig": str(sig)}
 
 
-FAMILIES = {"pairs": fam_pairs, "matrix": fam_matrix, "thresh": fam_thresh}
+# ---------------------------------------------------------------------------
+# larger structured inputs (beyond the exhaustive bound)
+
+
+def scale_matrix(T, dense=0):
+    """Four deterministic event series of length T with 10-40 events each:
+    regular, regular with another period (drifting against the first),
+    clustered (bursts of three) and pseudo-random (fixed LCG).  dense=1:
+    about twice as many events."""
+    div, ncl = (38, 12) if dense else (20, 6)
+    p = max(2 if dense else 3, T // div)
+    reg1 = [1 if t % p == 1 else 0 for t in range(T)]
+    reg2 = [1 if t % (p + 1) == 0 else 0 for t in range(T)]
+    c = T // ncl
+    clu = [0] * T
+    for k in range(ncl):
+        for d in (0, 1, 3):
+            if 2 + k * c + d < T:
+                clu[2 + k * c + d] = 1
+    m = max(3, T // 38) if dense else max(4, T // 25)
+    state, rnd = 12345, []
+    for t in range(T):
+        state = (1103515245 * state + 12345) % (1 << 31)
+        rnd.append(1 if (state >> 16) % m == 0 else 0)
+    return np.array([reg1, reg2, clu, rnd]).T.copy()
+
+
+def scale_ts(kind, T):
+    """Timestamps: indices; '6-hourly, hours since 1800' (1.9e6 + 6 k); the
+    same with a dyadic jitter down to 1/16 (non-uniform, strictly increasing;
+    not representable in single precision at this magnitude)."""
+    if kind == "idx":
+        return [float(k) for k in range(T)]
+    if kind == "big":
+        return [1.9e6 + 6.0 * k for k in range(T)]
+    jit = (0.0, 0.0625, 0.5, 1.0625)
+    return [1.9e6 + 6.0 * k + jit[(7 * k) % 4] for k in range(T)]
+
+
+def fam_scale(case):
+    T, dense, kind, part = case
+    ES = _ES()
+    mat = scale_matrix(T, dense)
+    N = mat.shape[1]
+    cols = [[int(v) for v in mat[:, i]] for i in range(N)]
+    ts = scale_ts(kind, T)
+    tsa = np.array(ts, dtype=float)
+    step = 1.0 if kind == "idx" else 6.0
+    # small windows (one and three sampling steps), unbounded; lags that are
+    # and are not multiples of the sampling step
+    configs = [(tm, lg) for tm in (step, 3 * step, None)
+               for lg in (0.0, step, 1.5 * step)]
+    viol, excl, sig = [], {}, []
+    stats = {"es_pairs_judged": 0, "es_nonzero": 0, "eca_rates_judged": 0,
+             "eca_rates_nonzero": 0, "eca_window_rates_judged": 0}
+    nj = [0, 0]
+    ev = 0
+
+    def ex(reason, n=1):
+        excl[reason] = excl.get(reason, 0) + n
+
+    for (taumax, lag) in configs:
+        if part == "matrix":
+            ev += _matrix_config(ES, mat, cols, ts, kind, taumax, lag, viol,
+                                 ex, nj, sig)
+        else:
+            i, j = part
+            ev += _pair_config(ES, cols[i], cols[j], mat[:, i].copy(),
+                               mat[:, j].copy(), ts, tsa, kind, taumax, lag,
+                               viol, ex, stats, sig)
+    stats["matrix_eca_entries_judged"] = nj[0]
+    stats["matrix_es_nonzero_pairwise_entries"] = nj[1]
+    seen, uniq = set(), []
+    for v in viol:          # one record per key and case
+        if v["key"] not in seen:
+            seen.add(v["key"])
+            uniq.append(v)
+    return {"viol": uniq, "evals": ev, "excluded": excl, "stats": stats,
+            "trivial": False, "sig": str(sig)}
+
+
+FAMILIES = {"pairs": fam_pairs, "matrix": fam_matrix, "thresh": fam_thresh,
+            "scale": fam_scale}
 
 
 def run(ctx):
@@ -507,6 +616,21 @@ def run(ctx):
                 desc="all 7x2 event matrices, all symmetrisations")
     ctx.explore("thresh", [(4, 2, c) for c in range(3 ** 8)],
                 desc="make_event_matrix on all (4,2) arrays over {0,1,2}")
+    # beyond the exhaustive bound: series of 60-300 (thorough 513) samples,
+    # 10-40 events, large time offsets; same oracles
+    sT = [60, 150, 257, 300] + ([200, 513] if thorough else [])
+    sc = []
+    for T in sT:
+        for dense in (0, 1):
+            for kind in ("idx", "big", "bigjit"):
+                sc += [(T, dense, kind, [i, j]) for i in range(4)
+                       for j in range(i + 1, 4)]
+                sc.append((T, dense, kind, "matrix"))
+    ctx.explore("scale", sc, chunk=1, desc="structured event series of "
+                "%s samples, 4 patterns, timestamps {indices, 1.9e6+6k, "
+                "jittered}, taumax {1,3 steps, inf}, lag {0, 1, 1.5 steps}"
+                % sT)
+    ctx.notes["scale_T"] = sT
     ctx.notes.update({"pairs_Tmax": Tmax, "matrix_shapes": [[5, 3], [7, 2]],
                       "matrix_configs": len(configs),
                       "thresh_shape": [4, 2]})
